@@ -336,10 +336,61 @@ fn transcript_one<B: FA, H: ElementHasher<BaseField = B> + Send + Sync>(c: &TCas
         p.push(e.clone());
     }
     obs.label(if search > 0 { "pow-search>0" } else { "pow-search=0" });
+    // with a grinding factor of zero the proof-of-work measure is not a challenge that is used (every nonce
+    // passes): whether a side evaluates it at all is not part of the property, the nonce handed to the query
+    // draw is
+    let pow_free = |v: &[Event]| -> Vec<Event> { v.iter().filter(|e| grinding > 0 || !matches!(e, Event::CheckLeadingZeros(..))).cloned().collect() };
+    let expected_full = expected;
+    let expected = pow_free(&expected_full);
+    let p = pow_free(&p);
     diff("prover", &p, &expected)?;
+    // the value absorbed with the query draw is the nonce carried in the proof: hand the verifier the same proof
+    // with another nonce that passes the proof-of-work check of the reference transcript; whatever the outcome,
+    // the verifier must have measured and absorbed that nonce
+    if grinding <= 8 {
+        if let Some(Event::DrawIntegers(..)) = expected_full.last() {
+            let mut n2 = proof.pow_nonce;
+            let mut found = None;
+            for _ in 0..4096 {
+                n2 = n2.wrapping_add(1);
+                let mut spec_n = spec.clone();
+                let k = spec_n.len();
+                spec_n[k - 2] = SpecOp::Pow(n2);
+                spec_n.truncate(k - 1);
+                if let Some(Event::CheckLeadingZeros(_, r)) = replay::<B, H>(&spec_n).last() {
+                    if *r >= grinding {
+                        found = Some(n2);
+                        break;
+                    }
+                }
+            }
+            if let Some(n2) = found {
+                obs.label("carried-nonce-replaced");
+                let mut forged = proof.clone();
+                forged.pow_nonce = n2;
+                clear_log();
+                let _ = verify_with::<B, H, RecordingCoin<B, H>>(forged, &desc, &min_sec0());
+                let log2 = take_log();
+                let used: Vec<u64> = log2.iter().filter_map(|e| if let Event::DrawIntegers(_, _, n, _) = e { Some(*n) } else { None }).collect();
+                ensure!(
+                    used == vec![n2],
+                    "verifier/absorbed-nonce-is-not-the-carried-one",
+                    "the proof carries nonce {n2} (replacing {}), which passes the proof-of-work check; the verifier drew the query positions with nonce(s) {used:?}",
+                    proof.pow_nonce
+                );
+                if grinding > 0 {
+                    ensure!(
+                        log2.iter().any(|e| matches!(e, Event::CheckLeadingZeros(n, _) if *n == n2)),
+                        "verifier/carried-nonce-not-measured",
+                        "the verifier did not measure the proof of work of the carried nonce {n2}"
+                    );
+                }
+            }
+        }
+    }
     // the verifier draws one extra, unused folding challenge after absorbing the remainder commitment
     let mut want_v = expected.clone();
-    let mut vlog = verifier_log.clone();
+    let mut vlog = pow_free(&verifier_log);
     if let Some(Event::Draw(..)) = vlog.get(remainder_pos) {
         vlog.remove(remainder_pos);
         obs.label("verifier-extra-alpha");
@@ -393,6 +444,7 @@ fn transcript_one<B: FA, H: ElementHasher<BaseField = B> + Send + Sync>(c: &TCas
         }
     }
     let disturbed = replay::<B, H>(&spec2);
+    let expected = &expected_full;
     for i in at + 1..expected.len() {
         match (&expected[i], &disturbed[i]) {
             (Event::Draw(_, Some(a)), Event::Draw(_, Some(b))) => {
@@ -429,7 +481,7 @@ impl SubCheck for Transcript {
         "GenAir instances (single and multi segment, Lagrange column, extension 1..3, 0..4+ FRI layers, grinding 0..8, 12 field/hasher pairs) proven and verified with a recording coin; the specified transcript is derived from the proof object alone (context and public inputs as seed, roots parsed from the commitments, OOD hashes recomputed from the proof's bytes, draw counts from the AIR) and replayed on a fresh coin; non-trivial = aux segment, extension field, grinding > 0, or 0 / >= 4 FRI layers".into()
     }
     fn required_labels(&self, _t: Tier) -> Vec<String> {
-        ["aux-segment", "lagrange", "ext=2", "ext=3", "fri-layers=0", "fri-layers=2", "grinding>0", "pow-search>0", "verifier-extra-alpha"].iter().map(|s| s.to_string()).collect()
+        ["aux-segment", "lagrange", "ext=2", "ext=3", "fri-layers=0", "fri-layers=2", "grinding>0", "pow-search>0", "verifier-extra-alpha", "carried-nonce-replaced"].iter().map(|s| s.to_string()).collect()
     }
     fn strategy(&self, tier: Tier) -> BoxedStrategy<TCase> {
         let p = GenParams { max_log_n: tier.pick(6, 9), max_grinding: 8, fixed: None, allow_aux: true, allow_degenerate: false };
